@@ -215,7 +215,7 @@ func runC20(c *core.Ctx) {
 		c.ReportOracle("error-not-well-formed", detail)
 	}
 	// ---- paths: exhaustive up to length 6 over 4 names and 4 indices (quick: length 4), then random
-	names := []string{"a", "", "é\"\\", "x y"}
+	names := []string{"a", "", "é\"\\", "x y", "7", "-3", "007"}
 	idx := []int{0, 1, -1, 9007199254740993}
 	elems := []string{}
 	for _, n := range names {
@@ -251,7 +251,7 @@ func runC20(c *core.Ctx) {
 		c.Count(fmt.Sprintf("paths_len_%d", n), int64(total))
 	}
 	c.Exhaustive = true
-	c.ExhaustNote = fmt.Sprintf("all paths of length <= %d over 4 names (incl. empty, quotes, non-ASCII) and 4 indices (incl. negative and 2^53+1)", maxLen)
+	c.ExhaustNote = fmt.Sprintf("all paths of length <= %d over 7 names (incl. empty, quotes, non-ASCII, and names that read as integers) and 4 indices (incl. negative and 2^53+1)", maxLen)
 
 	// random paths over names with every kind of character a client can put into a key:
 	// controls, DEL, line separators, HTML-sensitive characters, non-BMP and non-printable runes
@@ -391,6 +391,17 @@ func runC20(c *core.Ctx) {
 	c.Evals += int64(nSch)
 	// validation with every rule + variable coercion
 	cases := GenValidationCases(c, n/100+4, 20, nil)
+	// documents with very many errors: every one of them is a full error, however many there are
+	for _, m := range []int{99, 100, 101, 150, 400} {
+		var fs, vs []string
+		for j := 0; j < m; j++ {
+			fs = append(fs, "nope"+strconv.Itoa(j))
+			vs = append(vs, "$v"+strconv.Itoa(j)+": Int")
+		}
+		sdl := "type Query { a: Int }"
+		cases = append(cases, VCase{Srcs: []string{sdl}, Query: "{ " + strings.Join(fs, " ") + " }"},
+			VCase{Srcs: []string{sdl}, Query: "query Q(" + strings.Join(vs, ", ") + ") { a }"})
+	}
 	c.Pool.ParFor(len(cases), func(w, i int) {
 		k := cases[i]
 		s, err := loadImpl(k.Srcs...)
